@@ -217,6 +217,32 @@ func mutantsOf(base, src string) []mutant {
 					}
 				}
 			}
+			if (x.Tok == token.ASSIGN || x.Tok == token.DEFINE) && len(x.Lhs) >= 2 && len(x.Rhs) == 1 {
+				// a, b, c = f()  ->  one destination fewer (each position) / one blank destination more: the number of
+				// results no longer matches in either direction
+				if call, ok := x.Rhs[0].(*ast.CallExpr); ok {
+					if tup, ok := typeOf(call).(*types.Tuple); ok && tup.Len() == len(x.Lhs) {
+						tok := "assign"
+						if x.Tok == token.DEFINE {
+							tok = "define"
+						}
+						for k := range x.Lhs {
+							id, isId := x.Lhs[k].(*ast.Ident)
+							if x.Tok == token.DEFINE && !(isId && id.Name == "_") {
+								continue // dropping a defined name would only produce "undefined" errors elsewhere
+							}
+							var rest []string
+							for j, l := range x.Lhs {
+								if j != k {
+									rest = append(rest, text(l))
+								}
+							}
+							addRange("assign-count-mismatch", fmt.Sprintf("%s %d=call%d drop#%d", tok, len(x.Lhs)-1, len(x.Lhs), k), x.Lhs[0].Pos(), x.Lhs[len(x.Lhs)-1].End(), strings.Join(rest, ", "))
+						}
+						addRange("assign-count-mismatch", fmt.Sprintf("%s %d=call%d extra blank", tok, len(x.Lhs)+1, len(x.Lhs)), x.Lhs[0].Pos(), x.Lhs[len(x.Lhs)-1].End(), text(x.Lhs[0])+", _"+src[off(x.Lhs[0].End()):off(x.Lhs[len(x.Lhs)-1].End())])
+					}
+				}
+			}
 			if x.Tok == token.ASSIGN && len(x.Lhs) == 2 && len(x.Rhs) == 2 {
 				// a, b = e : count mismatch
 				addRange("assign-count-mismatch", "2=1", x.Rhs[0].Pos(), x.Rhs[1].End(), text(x.Rhs[0]))
@@ -241,6 +267,24 @@ func mutantsOf(base, src string) []mutant {
 				}
 			}
 		case *ast.ValueSpec:
+			if len(x.Names) >= 2 && len(x.Values) == 1 {
+				if call, ok := x.Values[0].(*ast.CallExpr); ok {
+					if tup, ok := typeOf(call).(*types.Tuple); ok && tup.Len() == len(x.Names) {
+						for k, nm := range x.Names {
+							if nm.Name != "_" {
+								continue
+							}
+							var rest []string
+							for j, l := range x.Names {
+								if j != k {
+									rest = append(rest, l.Name)
+								}
+							}
+							addRange("assign-count-mismatch", fmt.Sprintf("vardecl %d=call%d drop#%d", len(x.Names)-1, len(x.Names), k), x.Names[0].Pos(), x.Names[len(x.Names)-1].End(), strings.Join(rest, ", "))
+						}
+					}
+				}
+			}
 			if x.Type != nil && len(x.Values) == 1 && len(x.Names) == 1 {
 				t := typeOf(x.Type)
 				if t != nil {
@@ -805,7 +849,7 @@ func main() {
 	r.Set("mutation_operators_applied", len(res.Sets["ops"]))
 	r.Set("base_programs", bases)
 	r.Set("exhaustive", true)
-	r.Set("rule", "every mutation operator of the catalogue at every applicable AST site of every base program; a mutant counts when go/types rejects it with all errors on the mutated line; distinct_nontrivial = distinct (operator, site kind, type pair) combinations checked; the interpreter must return an error with empty output (no marker, no init)")
+	r.Set("rule", "every mutation operator of the catalogue (incl. one destination fewer at each position / one blank destination more for =, := and var with a multi-result call) at every applicable AST site of every base program; a mutant counts when go/types rejects it with all errors on the mutated line; distinct_nontrivial = distinct (operator, site kind, type pair) combinations checked; the interpreter must return an error with empty output (no marker, no init)")
 	r.Assumptions = []string{"go/types decides ill-typedness", "only the error classes named in the statement are generated"}
 	for _, i := range []int{1, len(muts) / 2, len(muts) - 1} {
 		m := muts[i]
